@@ -206,6 +206,7 @@ func vpH_C17_breaker_step() {
 	outcome := vpChoose("outcome", 2)
 	err := cb.Call(func() error {
 		invoked++
+		vpDelay("op", 0, time.Hour) // the guarded operation takes time
 		if outcome == 1 {
 			return vpErrTrans
 		}
@@ -226,6 +227,8 @@ func vpH_C17_breaker_step() {
 		return
 	}
 	vpAssert("C17.breaker-counts", err == vpErrTrans && cb.failures == fails+1)
+	// the cooldown runs from the failure, i.e. from the completion of the failing call
+	vpAssert("C17.breaker-cooldown-from-failure", cb.lastFailureTime.Equal(time.Now()))
 	// opens exactly when the consecutive-failure count reaches the threshold
 	if fails+1 >= thr {
 		vpAssert("C17.breaker-opens-at-n", cb.state == CircuitStateOpen)
@@ -247,14 +250,16 @@ func vpH_C17_T_breaker_seq() {
 		vpDelay("gap", 0, 2*time.Hour)
 		invoked := false
 		o := vpChoose("outcome", 2)
+		wasBlocked := opened && vpNow()-openedAt < int64(cool)
 		err := cb.Call(func() error {
 			invoked = true
+			vpDelay("op", 0, 30*time.Minute) // the guarded operation takes time
 			if o == 1 {
 				return vpErrTrans
 			}
 			return nil
 		})
-		if opened && vpNow()-openedAt < int64(cool) {
+		if wasBlocked {
 			vpAssert("C17.breaker-blocks-in-cooldown", !invoked && err != nil)
 			continue
 		}
